@@ -79,7 +79,7 @@ def C04_stop_point(strat: int, lagi: int, stop_at: int, pre: bool, s1: int, s2: 
   pre: 0 <= strat <= 6
   pre: 0 <= lagi <= 1
   pre: 0 <= stop_at <= 7
-  pre: -1 <= s1 <= stop_at and -1 <= s2 <= stop_at
+  pre: -1 <= s1 <= s2 <= stop_at
   pre: 0 <= m1 <= 1 and 0 <= m2 <= 1
   post: __return__
   """
@@ -90,8 +90,9 @@ def replay_stop_point(strat, lagi, stop_at, pre, s1, s2, m1, m2, ub, shut_set):
   return _stop_point(K.real_cache, strat, lagi, stop_at, pre, s1, s2, m1, m2, ub, shut_set)
 
 
-_S = [('s%d_%s_lag%d' % (i, n or 'none', l), 'strat == %d and lagi == %d' % (i, l)) for i, n in enumerate(K.STRATEGY_NAMES) for l in (0, 1)
-      if l == 0 or n == 'timesorted']
+def _shards(max_stop):
+  return [('s%d_%s_lag%d_st%d' % (i, n or 'none', l, t), 'strat == %d and lagi == %d and stop_at == %d' % (i, l, t))
+          for i, n in enumerate(K.STRATEGY_NAMES) for l in (0, 1) if l == 0 or n == 'timesorted' for t in range(max_stop + 1)]
 _ASSUME = ['Twisted shutdown as documented: the "before shutdown" triggers run first (shutdownModifyUpdateSpeed; listeners stop, so no store follows the stop), '
            'then reactor.running becomes False, and the thread-pool join lets the writer loop finish its current iteration',
            'events = reads of reactor.running, sleeps and backend calls; the stop arrives at a symbolic event index 0..7; the receiving thread stores '
@@ -101,8 +102,8 @@ _ASSUME = ['Twisted shutdown as documented: the "before shutdown" triggers run f
            'real carbon.writer module with patched globals; cache = message-stripped shadow of carbon.cache (replay: real); statement-level preemption inside a pass: race machinery']
 
 HARNESSES = [
-  H('C04_stop_point', quick=dict(timeout=280, shards=_S, extra_pre=['stop_at <= 5']), thorough=dict(timeout=1200, shards=_S),
-    covers=['stopped', 'had_data'], replay='replay_stop_point',
+  H('C04_stop_point', quick=dict(timeout=280, shards=_shards(4), extra_pre=['ub == shut_set']), thorough=dict(timeout=1200, shards=_shards(7)),
+    covers=['stopped', 'had_data'], replay='replay_stop_point', twin_pre=['strat == 3 and stop_at == 3'],
     encodes=['carbon.writer:writeForever', 'carbon.writer:writeCachedDataPoints', 'carbon.writer:shutdownModifyUpdateSpeed',
              'carbon.cache:_MetricCache.store', 'carbon.cache:_MetricCache.drain_metric'],
     assumptions=_ASSUME),
